@@ -777,8 +777,8 @@ class QuicConnection:
         """
         payload_length = len(data)
 
-        # stop handling packets when closing
-        if self._state in END_STATES:
+        # stop handling packets when closing, or about to
+        if self._state in END_STATES or self._close_pending:
             return
 
         # log datagram
